@@ -78,46 +78,66 @@ def specEmail (isSpace : Char → Bool) (post : Val → Val) (v : Val) : SpecOut
   | .str s => if emailSpecB isSpace s then .accept (post v) false else .reject
   | _ => .na
 
-/-! ### validators defined by a standard-library notion: accepted iff the library says valid -/
+/-! ### validators defined by a standard-library notion: accepted iff the library says valid.
+    Written from the property text and the documented parameters (`convert`, `to_upper_case`, "seconds since 1970"), as
+    functions of the answers of the library callees; `Option` pipelines, no exception classes, no `try`. -/
 
+/-- the answer of a callee, forgetting which class it raised -/
+def Orc.toOption {α : Type} : Orc α → Option α
+  | .ok v => some v
+  | .raises _ => none
+
+/-- MatchPattern / Email with a custom pattern: accepted iff `re` finds a match -/
 def specOracleBool (matched : Orc Bool) (out : Val) (ident : Bool) : SpecOut :=
   match matched with
   | .ok true => .accept out ident
   | .ok false => .reject
   | .raises _ => .na            -- `re` itself failed (non-str subject for Email): outside the domain
 
-def specIsUuid (convert : Bool) (o : Orc Val) (v : Val) : SpecOut :=
-  match o with
-  | .ok u => if convert then .accept u false else .accept v true
-  | .raises _ => .reject
-
-/-- IsEnum: the value (upper-cased when it is a str and `to_upper_case`; through `int()` for an IntEnum) names a member;
-    returns the member when `convert`, else the (upper-cased) value -/
-def specIsEnum (convert toUpper : Bool) (env : EnumEnv) (v : Val) : SpecOut :=
-  let up := env.valueIsStr && toUpper
-  let member : Option Val :=
-    if env.isIntEnum then
-      (match env.intOf up, env.lookup up true with | .ok _, .ok m => some m | _, _ => none)
-    else (match env.lookup up false with | .ok m => some m | _ => none)
-  match member with
-  | some m => if convert then .accept m false else if up then .accept env.upper false else .accept v true
+/-- IsUuid: accepted iff `UUID(str(v))` exists; returns it when `convert`, else the argument -/
+def specIsUuid (convert : Bool) (uuidOfStr : Val → Orc Val) (v : Val) : SpecOut :=
+  match (uuidOfStr v).toOption with
+  | some u => if convert then .accept u false else .accept v true
   | none => .reject
 
-def specIso (o : Orc Val) : SpecOut :=
-  match o with | .ok d => .accept d false | .raises _ => .reject
+/-- IsEnum, the key under which the value is looked up: its upper-cased form when `to_upper_case` and it is a str, else the
+    value itself (second component: it is the argument itself) -/
+def enumKey (toUpper : Bool) (env : EnumEnv) (v : Val) : Val × Bool :=
+  if toUpper && env.isStrInst v then (env.upperOf v, false) else (v, true)
+
+/-- the member the key names, if any: for an IntEnum the key is read as an integer first -/
+def enumMember (env : EnumEnv) (key : Val) : Option Val :=
+  (if env.isIntEnum then (env.intOf key).toOption else some key).bind fun a => (env.enumOf a).toOption
+
+/-- IsEnum: accepted iff the key names a member; returns the member when `convert`, else the key -/
+def specIsEnum (convert toUpper : Bool) (env : EnumEnv) (v : Val) : SpecOut :=
+  match enumMember env (enumKey toUpper env v).1 with
+  | some m => if convert then .accept m false else .accept (enumKey toUpper env v).1 (enumKey toUpper env v).2
+  | none => .reject
+
+/-- DatetimeIsoFormat: accepted iff `datetime.fromisoformat(v)` exists; returns it -/
+def specIso (fromIso : Val → Orc Val) (v : Val) : SpecOut :=
+  match (fromIso v).toOption with
+  | some d => .accept d false
+  | none => .reject
 
 /-- days from 0001-01-01 (ordinal 1) to 1970-01-01 (ordinal 719163) and to 9999-12-31 (ordinal 3652059) -/
 def specMinUs : Int := -(719163 - 1) * 86400 * 1000000
 def specMaxUs : Int := (3652059 - 719163 + 1) * 86400 * 1000000 - 1
 
-/-- DateTimeUnixTimestamp: an int / float / str that denotes a finite number of seconds whose datetime exists -/
-def specUnix (fl : Orc Num) (td : Orc Int) (v : Val) : SpecOut :=
-  match v with
-  | .bool _ | .int _ | .float _ _ | .str _ =>
-    (match fl, td with
-     | .ok _, .ok us => if specMinUs ≤ us ∧ us ≤ specMaxUs then .accept (.ext "datetime_us" (toString us)) false else .reject
-     | _, _ => .reject)
-  | _ => .reject
+/-- the documented input domain of DateTimeUnixTimestamp: an int (bool included), a float or a str -/
+def isSecondsValue : Val → Bool
+  | .bool _ | .int _ | .float _ _ | .str _ => true
+  | _ => false
+
+/-- DateTimeUnixTimestamp: an int / float / str that denotes a finite number of seconds (`float(v)`, as a `timedelta` of `us`
+    whole microseconds) whose datetime 1970-01-01 + us exists; returns that datetime -/
+def specUnix (floatOf : Val → Orc Num) (timedeltaOf : Num → Orc Int) (v : Val) : SpecOut :=
+  if isSecondsValue v then
+    match (floatOf v).toOption.bind fun x => (timedeltaOf x).toOption with
+    | some us => if specMinUs ≤ us ∧ us ≤ specMaxUs then .accept (.ext "datetime_us" (toString us)) false else .reject
+    | none => .reject
+  else .reject
 
 /-! ### ForEach / Composite -/
 
